@@ -996,6 +996,23 @@ def install(E):
         return UNIT
     reg(r'^(?:std::vec::|alloc::vec::)?Vec::<(?!u8>).*>::push$', h_push)
 
+    def h_coroutine_poll(E, m, func, argv, guard, mem, dty, caller):
+        """<{async block@F:L:C: L:C} as Future>::poll(pin, cx): run the block's own state-machine function"""
+        key = m.group(1)
+        c = getattr(E, '_poll_fns', {}).get(key)
+        if c is None:
+            pat = 'Pin<&mut {async block@%s}>' % key
+            cands = [i for i in range(len(E.ix.offsets)) if pat in E.ix.offsets[i][0]]
+            if len(cands) != 1:
+                return NotImplemented
+            c = E.ix.get(cands[0])
+            E._poll_fns = dict(getattr(E, '_poll_fns', {}), **{key: c})
+        r = E.call_fn(c, argv, guard, mem)
+        if r is DIVERGE:
+            return DIVERGE
+        return r
+    reg(r'^<\{async block@([^}]*)\} as (?:std::future::)?Future>::poll$', h_coroutine_poll)
+
     def h_vec_new(E, m, func, argv, guard, mem, dty, caller):
         return Seq([], 0, m.group(1))
     reg(r'^(?:std::vec::|alloc::vec::)?Vec::<(?!u8>)(.*)>::new$', h_vec_new)
